@@ -161,6 +161,8 @@ func main() {
 	var incs []int
 	var prints []bool
 	var printLevels []int
+	var adjustConds []string
+	var adjustIncs, adjustBranch []int
 	for cur := ast.Stmt(br); cur != nil; {
 		var body *ast.BlockStmt
 		switch s := cur.(type) {
@@ -174,6 +176,30 @@ func main() {
 			cur = nil
 		}
 		inc, printed, plevel, calls := -1, false, -1, 0
+		// a branch may compute the level of its recursive call in a local: `L := CUR + n; if COND { L = CUR + m }`
+		localBase := map[string]int{}
+		for _, st := range body.List {
+			switch x := st.(type) {
+			case *ast.AssignStmt:
+				if x.Tok == token.DEFINE && len(x.Lhs) == 1 && len(x.Rhs) == 1 {
+					if v := levelInc(x.Rhs[0], pCur); v >= 0 {
+						localBase[ident(x.Lhs[0])] = v
+					}
+				}
+			case *ast.IfStmt:
+				if x.Init == nil && x.Else == nil && len(x.Body.List) == 1 {
+					if as, ok := x.Body.List[0].(*ast.AssignStmt); ok && as.Tok == token.ASSIGN && len(as.Lhs) == 1 && len(as.Rhs) == 1 {
+						if _, isLocal := localBase[ident(as.Lhs[0])]; isLocal {
+							if v := levelInc(as.Rhs[0], pCur); v >= 0 {
+								adjustConds = append(adjustConds, norm(df, x.Cond, droles))
+								adjustIncs = append(adjustIncs, v)
+								adjustBranch = append(adjustBranch, len(conds)-1)
+							}
+						}
+					}
+				}
+			}
+		}
 		ast.Inspect(body, func(n ast.Node) bool {
 			c, ok := n.(*ast.CallExpr)
 			if !ok {
@@ -184,6 +210,9 @@ func main() {
 				calls++
 				if len(c.Args) == 8 && norm(df, c.Args[2], droles) == "DEP" && norm(df, c.Args[3], droles) == "DONE" && norm(df, c.Args[4], droles) == "LIMIT" {
 					inc = levelInc(c.Args[5], pCur)
+					if v, ok := localBase[ident(c.Args[5])]; ok {
+						inc = v
+					}
 				}
 			case "printTarget":
 				printed = true
@@ -205,6 +234,10 @@ func main() {
 	}
 	out.Def("depsBranchConds", "List String", xlib.LeanStrList(conds))
 	out.Def("depsBranchIncs", "List Nat", xlib.LeanNatList(incs))
+	// conditional overrides of a branch's level (branch index, condition, increment)
+	out.Def("depsAdjustBranch", "List Nat", xlib.LeanNatList(adjustBranch))
+	out.Def("depsAdjustConds", "List String", xlib.LeanStrList(adjustConds))
+	out.Def("depsAdjustIncs", "List Nat", xlib.LeanNatList(adjustIncs))
 	pb := []string{}
 	for i, p := range prints {
 		if p {
